@@ -279,11 +279,29 @@ def _desc(d, indent=""):
     return indent + '"""' + d + '"""\n'
 
 
+class _NullReason:
+    """@deprecated(reason: null): deprecated, explicitly without a reason."""
+
+    def __repr__(self):
+        return "NULL_REASON"
+
+    def __deepcopy__(self, memo):
+        return self
+
+    def __copy__(self):
+        return self
+
+
+NULL_REASON = _NullReason()
+
+
 def _dep(dep):
     if dep is None:
         return ""
     if dep is True:
         return " @deprecated"
+    if dep is NULL_REASON:
+        return " @deprecated(reason: null)"
     return " @deprecated(reason: %s)" % sdl_value_str(("str", dep))
 
 
